@@ -1,6 +1,6 @@
 // Bounded oracle for C02: a well-formed document yields a tree that mirrors it, whatever the layout.
 // Documents are generated from a small description (independent reference: the description renders BOTH the token list and
-// the expected shape of the tree); every document is laid out with 8 separators between all tokens (spaces, tabs, LF, CRLF,
+// the expected shape of the tree); every document is laid out with 8 separators and once compactly (no layout where tokens cannot run together) between all tokens (spaces, tabs, LF, CRLF,
 // block comments with multi-byte text, line comments). The shape ignores positions, documentation and what validation adds
 // (resolved kinds, propagated oneway), exactly as the statement does.
 use aidl_parser::ast::*;
@@ -147,7 +147,7 @@ fn parcelable_docs() -> Vec<Doc> {
 
 #[test]
 fn c02_all() {
-    let seps = [" ", "  \t", "\n", "\r\n", " /* \u{e9}\u{4e2d} ; { */ ", " // c ; }\n", "/** banner **/", "/***/ /**/\t"];
+    let seps = [" ", "  \t", "\n", "\r\n", " /* \u{e9}\u{4e2d} ; { */ ", " // c ; }\n", "/** banner **/", "/***/ /**/\t", ""];
     let mut out: Vec<String> = Vec::new();
     let mut evals = 0usize;
     let mut docs = interface_docs();
@@ -156,7 +156,19 @@ fn c02_all() {
     for d in docs.iter() {
         for sep in seps.iter() {
             evals += 1;
-            let src = d.toks.join(sep);
+            // "" = compact: no layout at all wherever the two neighbouring tokens cannot run into each other
+            let src = if sep.is_empty() {
+                let mut o = String::new();
+                for (k, t) in d.toks.iter().enumerate() {
+                    if k > 0 {
+                        let (a, b) = (d.toks[k - 1].chars().last().unwrap(), t.chars().next().unwrap());
+                        let word = |c: char| c.is_alphanumeric() || c == '_' || c == '.' || c == '+' || c == '-' || c == '@' || c == '"';
+                        if word(a) && word(b) { o.push(' '); }
+                    }
+                    o += t;
+                }
+                o
+            } else { d.toks.join(sep) };
             let mut p = Parser::new();
             p.add_content(0, &src);
             let res = p.validate();
